@@ -1,4 +1,5 @@
 pub mod baseline_hist;
+pub mod c01;
 pub mod c02;
 pub mod c03;
 pub mod c04;
@@ -45,6 +46,7 @@ impl Tier {
 
 pub fn run(prop: &str, tier: Tier, seed: u64, out: &str) -> bool {
     match prop {
+        "C01" => c01::run(tier, seed, out),
         "C02" => c02::run(tier, seed, out),
         "C03" => c03::run(tier, seed, out),
         "C04" => c04::run(tier, seed, out),
